@@ -31,7 +31,7 @@ BUDGET = {'quick': (8, 240), 'thorough': (16, 1800)}
 ALPHA = ['a', "'", '"', '\\', '%', ':', ';', '-', '\n']
 CONTROL = ['\r', '\x00', '\x1a', '\t', '\b', '\x7f', 'a\rb', "'\r'", '\r\n', '\\\r']
 OUTPUTS = ['to_string', 'mysql', 'postgresql', 'sqlite', 'mssql', 'oracle']
-POSITIONS = ['select', 'where', 'in', 'insert', 'update', 'in-long']
+POSITIONS = ['select', 'where', 'in', 'insert', 'update', 'in-long', 'in-mixed']
 INJECTION = ["' OR 1=1 -- ", "\\' OR 1=1 -- ", "'; DROP TABLE t; --", "a' UNION SELECT 'b", "\\", "a\\", "\\\\'", "x'/*", "*/'", "%s", "%(x)s", ":x", ":1",
              "it's", "''", "'\\''", '"', 'a"b', "\\'", "\\\"", "line1\nline2", "tab\there", "nul\x00byte", "é'é", "漢'字", "🙂", "--", "/*", ";", "${x}", "{}", "%%"]
 MARK = 'QXQ'
@@ -59,6 +59,10 @@ def build(pos, value):
     if pos == 'in':
         return A.Select(targets=[A.Identifier('a')], from_table=A.Identifier('t1'),
                         where=A.BinaryOperation('in', args=[A.Identifier('b'), A.Tuple([c, A.Constant(7)])]))
+    if pos == 'in-mixed':
+        # the value after constants of other types (a list must not be typed by its first element)
+        return A.Select(targets=[A.Identifier('a')], from_table=A.Identifier('t1'),
+                        where=A.BinaryOperation('in', args=[A.Identifier('b'), A.Tuple([A.Constant(3), c, A.Constant(4.5)])]))
     if pos == 'in-long':
         # a list long enough to cross any "small list" threshold in the renderer
         items = [A.Constant(1000 + i) for i in range(40)] + [c] + [A.Constant(f's{i}') for i in range(40)]
